@@ -215,7 +215,8 @@ def parse_terse(out):
             if m:
                 r["stubs"].append(m.group(1))
             if ln.startswith("VERIFICATION:- "):
-                r["status"] = ln[len("VERIFICATION:- "):].strip()
+                r["status"] = ln[len("VERIFICATION:- "):].strip().split()[0]
+                r["status_line"] = ln
             if "CBMC timed out" in ln or "timed out" in ln.lower():
                 r["timeout"] = True
         i += 1
@@ -309,7 +310,7 @@ def known_open(prop, key):
     return None
 
 
-def playback(fam, prog, h, log):
+def playback(fam, prog, h, log, want_cover=None):
     """Obtain Kani's counterexample for one harness and replay it natively against the real code.
     Returns (reproduced: bool|None, test_src, output)."""
     cd = crate_dir(fam.prop)
@@ -319,7 +320,10 @@ def playback(fam, prog, h, log):
                          "--concrete-playback=print", "--target-dir", td])
     rc, out, dt = sh(cmd, cwd=cd, timeout=fam.harness_timeout + 600)
     blocks = re.findall(r"```\s*\n(.*?)```", out, re.S)
-    blocks = [b for b in blocks if "Check for `cover`" not in b]
+    if want_cover:
+        blocks = [b for b in blocks if "Check for `cover`" in b and want_cover in b]
+    else:
+        blocks = [b for b in blocks if "Check for `cover`" not in b]
     if not blocks:
         return None, None, out[-4000:]
     test_src = blocks[0]
@@ -341,7 +345,11 @@ def playback(fam, prog, h, log):
     ran = re.search(r"test result: (\w+)\. (\d+) passed; (\d+) failed", out2)
     if not ran:
         return None, test_src, out2[-4000:]
-    reproduced = ran.group(1) == "FAILED" and int(ran.group(3)) >= 1
+    if want_cover:
+        # the harness is #[kani::should_panic]; "the call returned" reproduces iff the native run does NOT panic
+        reproduced = ran.group(1) == "ok" and int(ran.group(2)) >= 1
+    else:
+        reproduced = ran.group(1) == "FAILED" and int(ran.group(3)) >= 1
     if int(ran.group(2)) + int(ran.group(3)) == 0:
         return None, test_src, out2[-4000:]
     return reproduced, test_src, out2[-4000:]
@@ -406,6 +414,11 @@ def decide(fam, tier, seed, max_playback=3):
             else:
                 undecided.append("%s: negative control did not fail (status %s) -- harness may be vacuous" % (okey, status))
             continue
+        if h.kind == "no_return" and status == "SUCCESSFUL" and (r.get("satisfied") or 0) > 0:
+            # #[kani::should_panic] harness whose post-call cover "RETURNED" is satisfiable: the call can return
+            status = "FAILED"
+            r["failed_checks"] = [("cover RETURNED is satisfiable: the call returns for some input instead of panicking", pretty)]
+            r["returned"] = True
         if status == "SUCCESSFUL":
             if h.cover_min and (r.get("satisfied") or 0) < h.cover_min:
                 undecided.append("%s: only %s of %s reachability covers satisfied (vacuity guard)" % (okey, r.get("satisfied"), h.cover_min))
@@ -441,7 +454,7 @@ def decide(fam, tier, seed, max_playback=3):
         if n_pb < max_playback:
             n_pb += 1
             log("obligation %s FAILED (%s); extracting counterexample and replaying natively" % (okey, desc))
-            rep, test_src, pbout = playback(fam, p, h, log)
+            rep, test_src, pbout = playback(fam, p, h, log, want_cover="RETURNED" if r.get("returned") else None)
             payload.update({"counterexample_test": test_src, "native_replay_output": pbout, "native_replay_reproduced": rep})
             if rep is True:
                 path = write_replay(fam.prop, okey, payload)
